@@ -4,12 +4,12 @@ From V.C17 Require Import Model Spec.
 Open Scope Z_scope.
 
 Lemma kind_eqb_refl : forall k, kind_eqb k k = true.
-Proof. destruct k; reflexivity. Qed.
+Proof. induction k; try reflexivity. exact IHk. Qed.
 
 (* ---- a converted argument always has the parameter's kind *)
 Lemma to_go_typed_l : forall lib k v g, to_go lib k v = Ok g -> dyn_kind g = k.
 Proof.
-  intros lib k v g H. destruct k; cbn in H;
+  intros lib k v g H. unfold to_go in H. destruct (base_kind k);
     repeat match type of H with
     | context [match as_int ?x with _ => _ end] => destruct (as_int x)
     | context [match as_float ?l ?x with _ => _ end] => destruct (as_float l x)
@@ -31,7 +31,8 @@ Lemma to_go_matching_l : forall lib k v, wf v = true -> matching v k = true ->
   to_go lib k v = if unconvertible lib v k then Throw else Ok (arrive lib k v).
 Proof.
   intros lib k v Hw Hm.
-  destruct v; destruct k; try discriminate; cbn in *; try reflexivity.
+  unfold to_go, matching, unconvertible, arrive, fits, int_bounds in *.
+  destruct v; destruct (base_kind k) eqn:E; try discriminate; cbn in *; try reflexivity.
   all: try (apply andb_true_iff in Hw; destruct Hw as [Hlo Hhi]; apply Z.leb_le in Hlo, Hhi;
             unfold minint, maxint in *; split_cmp; cbn; try reflexivity; exfalso; lia).
 Qed.
@@ -41,27 +42,28 @@ Lemma from_go_returnable_l : forall g, returnable g = true -> from_go g = Ok (pr
 Proof.
   intros g H; destruct g; try reflexivity; try discriminate.
   cbn in *. apply andb_true_iff in H. destruct H as [_ H]. apply Z.leb_le in H.
-  destruct (signed_kind k); [reflexivity|].
+  destruct (signed_kind t); [reflexivity|].
   replace (z >? maxint) with false by (symmetry; rewrite Z.gtb_ltb; apply Z.ltb_ge; exact H). reflexivity.
 Qed.
 Lemma from_go_not_crash : forall g, not_crash (from_go g) = true.
-Proof. intro g; destruct g; cbn; try reflexivity. destruct (signed_kind k); [reflexivity|]. destruct (z >? maxint); reflexivity. Qed.
+Proof. intro g; destruct g; cbn; try reflexivity. destruct (signed_kind t); [reflexivity|]. destruct (z >? maxint); reflexivity. Qed.
 
 Lemma arrive_returnable : forall lib k v, wf v = true -> matching v k = true -> unconvertible lib v k = false ->
   returnable (arrive lib k v) = true.
 Proof.
-  intros lib k v Hw Hm Hu. destruct v; destruct k; try discriminate; try reflexivity;
+  intros lib k v Hw Hm Hu. unfold matching, unconvertible, arrive in *.
+  destruct v; destruct (base_kind k) eqn:E; try discriminate; try reflexivity;
     cbn in *; apply negb_false_iff in Hu; rewrite Hu; cbn;
     apply andb_true_iff in Hw; destruct Hw as [_ Hw]; exact Hw.
 Qed.
 
 Lemma roundtrip_l : forall lib k v, wf v = true -> matching v k = true -> unconvertible lib v k = false ->
   from_go (arrive lib k v) =
-  Ok (match v, k with SFloat f, KFloat32 => SFloat (f32 lib f) | _, _ => v end).
+  Ok (match v, base_kind k with SFloat f, KFloat32 => SFloat (f32 lib f) | _, _ => v end).
 Proof.
   intros lib k v Hw Hm Hu.
   rewrite (from_go_returnable_l _ (arrive_returnable lib k v Hw Hm Hu)).
-  destruct v; destruct k; try discriminate; reflexivity.
+  unfold matching, arrive in *. destruct v; destruct (base_kind k); try discriminate; reflexivity.
 Qed.
 
 (* ---- Call *)
@@ -163,9 +165,27 @@ Proof.
       end; try discriminate; injection H as <-; reflexivity.
   - destruct k; cbn in H; try discriminate; injection H as <-; reflexivity.
 Qed.
-Lemma generic_matching_l : forall lib k v, matching v k = true ->
+Lemma generic_matching_l : forall lib k v, predeclared k = true -> matching v k = true ->
   generic lib k v = if unconvertible lib v k then Throw else Ok (arrive lib k v).
 Proof.
-  intros lib k v Hm. destruct v; destruct k; try discriminate; cbn; try reflexivity;
+  intros lib k v Hp Hm. destruct v; destruct k; try discriminate; cbn; try reflexivity;
     try (match goal with |- (if ?c then _ else _) = _ => destruct c; reflexivity end).
 Qed.
+
+(* ---- "exactly the value" in terms of representability *)
+Lemma representable_exact_l : forall lib k v, matching v k = true -> representable lib v k = true ->
+  match v, base_kind k with
+  | SFloat f, KFloat32 => arrive lib k v = GFlt k (f32 lib f) /\ same_float (f32 lib f) f = true
+  | _, _ => arrive lib k v = inject k v
+  end.
+Proof.
+  intros lib k v Hm Hr. unfold matching, representable, arrive, inject in *.
+  destruct v; destruct (base_kind k) eqn:E; try discriminate; try reflexivity.
+  split; [reflexivity|exact Hr].
+Qed.
+(* an integer that is representable is convertible; a float32-representable float is convertible
+   unless it is a finite value whose float32 image is infinite (excluded by representability for
+   every float whose same_float image is itself: stated for integers, where it is decidable here) *)
+Lemma representable_int_convertible_l : forall lib k z, representable lib (SInt z) k = true ->
+  unconvertible lib (SInt z) k = false.
+Proof. intros lib k z H. unfold representable, unconvertible in *. destruct (base_kind k); rewrite H; reflexivity. Qed.
